@@ -232,6 +232,18 @@ def main():
         v, n = predict(c_, rng, q_, None)
         res['predictions_checked'] += n; res['violations'] += v; res['configs'] += 1
         dist['corpus'] = dist.get('corpus', 0) + 1
+    # shipped configurations whose profile holds genuine radii and the sentinel SIDE BY SIDE (a run of grid points without any positive zero after a run with one),
+    # and one with no zero anywhere
+    for name in ('precise QH+well', '2022 QH nfp2', '2022 QH nfp3 vacuum', '2022 QH nfp7'):
+        if res['violations']:
+            break
+        try:
+            q_ = qsc.Qsc.from_paper(name, nphi=31); c_ = dict(preset=name, nphi=31, sG=1, spsi=1)
+        except Exception:
+            continue
+        v, n = predict(c_, rng, q_, collect if a.mode == 'check' else None)
+        res['predictions_checked'] += n; res['violations'] += v; res['configs'] += 1
+        dist['preset-with-sentinel'] = dist.get('preset-with-sentinel', 0) + 1
     while tried < nn and (a.mode == 'check' or (time.time() - t0 < a.budget and not res['violations'])):
         tried += 1
         sg = [(1, 1), (1, -1), (-1, 1), (-1, -1)][tried % 4]
